@@ -409,7 +409,10 @@ def cmd_picmg_send_pm_heartbeat(ipmi, args):
 
 
 def cmd_picmg_send_channel_power(ipmi, args):
-    ipmi.send_channel_power(int(args[0]))
+    if len(args) < 3:
+        usage()
+        return
+    ipmi.send_channel_power(int(args[0]), int(args[1]), float(args[2]))
 
 
 def usage(toplevel=False):
@@ -738,6 +741,8 @@ COMMAND_HELP = (
                     'Request all portstates for all interfaces'),
         CommandHelp('picmg portstate get', '<channel> <interface>',
                     'Request the portstate for an interface'),
+        CommandHelp('picmg channel power', '<channel> <0|1> <current limit>',
+                    'Disable/enable a power channel with the given limit'),
 
         CommandHelp('hpm', None, 'HPM.1 commands'),
         CommandHelp('hpm capabilities', 'HPM.1 target upgrade capabilities',
